@@ -37,7 +37,8 @@ REAL_STUB = {
 }
 EXPECTED_PROBES = ["probe_fault_in_first_probe", "probe_fault_in_later_probe", "probe_symbol_point_rebinding", "probe_multi_param", "probe_jacobian",
                    "probe_literal_point", "probe_nonscalar_fault", "probe_unknown_name", "probe_earlier_result_kept_in_a_variable",
-                   "probe_parameter_after_a_descent_step", "probe_operator_inside_a_function", "probe_reassign_then_repeat"]
+                   "probe_parameter_after_a_descent_step", "probe_operator_inside_a_function", "probe_reassign_then_repeat",
+                   "probe_plain_functions_before_and_after"]
 WALL_CAP = {"quick": 400, "thorough": 3600}
 
 
@@ -347,6 +348,51 @@ def scenario(ch, cfg):
         evaluations += 1
         after = _snapshot(klong)
         compare(mid, after, f"{src} with a function referring to the unknown name 'nosuch' -> {r}")
+    # ---- functions that use their parameters directly (no tick in between), with computed parameters and matrix shapes:
+    #      whatever the operator does to evaluate them - rebinding, probing with other kinds of values, failing on a shape it
+    #      cannot handle - each of them returns afterwards exactly what it returned before, value and kind
+    if not violations:
+        bump("probe_plain_functions_before_and_after")
+        k2 = KlongInterpreter(backend=backend) if backend == "torch" else KlongInterpreter()
+        pw = ch.pick(["+/[1.0 1.0]", "2.0", "1.0+1", "3"], "pw")          # a computed scalar is a numpy scalar, a literal is not
+        lines = [f"pw::{pw}", "pb::[1.0 2.0 3.0]", "pf::{(pw^2)*#pb}", "pf2::{(pw*pw)+#pb}", "PW::[[1.0 2.0] [3.0 4.0]]", "PM::[[1 2] [3 4]]",
+                 "pg::{(PW*PM)^2}", "pgs::{+/+/(PW*PM)^2}", "pv::[1.0 2.0]", "ph::{(pv^2),#pv}", "phs::{+/(pv*pv)*#pv}",
+                 # a compilable operand (arithmetic of two globals) below an operator the compiler does not take (ravel, count)
+                 "pg2::{,/(PW*PM)^2}", "pgs2::{+/,/(PW*PM)^2}", "pgx::{,/(x*PM)^2}", "PX::[3.0 4.0]", "phu::{(+/(pv*PX)^2)*#PX}"]
+        for line in lines:
+            k2(line)
+
+        def run2(src_):
+            try:
+                return ("ok", _desc(k2(src_)))
+            except BaseException as e:   # noqa
+                if isinstance(e, (SystemExit, KeyboardInterrupt)):
+                    raise
+                return ("exc", type(e).__name__)
+        calls = ["pf()", "pf2()", "pg()", "pgs()", "ph()", "phs()", "pg2()", "pgs2()", "pgx(PW)", "phu()"]
+        base = {c: run2(c) for c in calls}
+        ops = ["pw∇pf", "pf:>[pw]", "[pw]∂pf", "pw∇pf2", "pf2:>[pw]", "PW∂pg", "[PW]∂pg", ".jacobian(pg;PW)", "PW∇pgs", "pgs:>[PW]", "[PW]∂pgs",
+               "pv∂ph", "[pv]∂ph", "pv∇phs", "phs:>[pv]", ".jacobian(ph;pv)", "[PW]∂pg2", "PW∂pgx", ".jacobian(pgx;PW)", "[PW]∂pgs2", "pgs2:>[PW]",
+               "PW∇pgs2", "pv∇phu", "phu:>[pv]", "[pv]∂phu"]
+        nops = 3 + ch.draw(4, "plain.nops")
+        for _ in range(nops):
+            op = ch.pick(ops, "plain.op")
+            before = {name: d for name, d in _snapshot(k2, skip=()).items()}
+            r = run2(op)
+            evaluations += 1
+            after = _snapshot(k2, skip=())
+            for name in sorted(set(before) | set(after)):
+                if before.get(name) != after.get(name):
+                    viol(f"C07:plain:variable-changed:{op.split('(')[0] if op.startswith('.') else ''.join(c for c in op if not c.isalnum())}",
+                         f"{op} -> {str(r)[:60]}: global {name} was {str(before.get(name))[:80]} and is now {str(after.get(name))[:80]} (pw::{pw})")
+            for c in calls:
+                now = run2(c)
+                if now != base[c]:
+                    fn_src = [line for line in lines if line.startswith(c.split("(")[0] + "::")][0]
+                    viol("C07:plain:function-value-or-kind-differs-afterwards",
+                         f"{fn_src} with pw::{pw}: {c} returned {str(base[c])[:90]} before and {str(now)[:90]} after {op} (-> {str(r)[:50]})")
+            if violations:
+                break
     sample = {"backend": backend, "form": form, "source": src, "setup": setup[4:], "ticks": n_ticks, "reference": str(ref)[:80]}
     key = f"{backend}|{form}|{kind}|{n_ticks}|{setup[-2][:30]}"
     return {"violations": violations, "stats": stats, "evaluations": evaluations, "digest": None,
